@@ -804,7 +804,11 @@ class TreeGitStore(GitStore):
                 raise InvalidETag(name, etag, current_etag.decode("ascii"))
         try:
             with locked_index(self.repo.index_path()) as index:
-                os.unlink(p)
+                try:
+                    os.unlink(p)
+                except FileNotFoundError as exc:
+                    # Deleted by somebody else since the check above
+                    raise NoSuchItem(name) from exc
                 del index[name.encode(DEFAULT_ENCODING)]
                 self._commit_tree(
                     index, message.encode(DEFAULT_ENCODING), author=author
